@@ -310,6 +310,10 @@ def run_pair(rec, op, spec, chunks_list, geom, sname, skw, rng, base_extra=None,
     elif cmpm[0] == 'terrain':
         zf = cmpm[1]
         g64 = got.astype('float64'); r64 = refd.astype('float64')
+        if np.isnan(r64).any() or np.isnan(g64).any():
+            # degenerate normalisation: on tiny templates the noise can be constant, (x - min) / ptp is 0/0 on one backend and
+            # rounding noise on the other - outside what the property can pin down
+            rec.rej('generate_terrain.degenerate_constant_noise'); return None
         flip = (g64 == 0) != (r64 == 0)
         nz = np.where(g64 == 0, r64, g64)
         band = flip & (np.abs(nz - 0.3 * zf) <= 2e-4 * zf)
